@@ -2352,7 +2352,7 @@ class Attribute(object):
                     remove_from_save_queue(objects_to_save, obj)
                     obj._save_pos_ = None
 
-                if old_val is NOT_LOADED: obj._vals_.pop(attr)
+                if old_val is NOT_LOADED: obj._vals_.pop(attr, None)  # (an index conflict is reported before the new value is stored)
                 else: obj._vals_[attr] = old_val
                 for cache_index, old_key, new_key in undo:
                     if new_key is not None: del cache_index[new_key]
